@@ -98,26 +98,26 @@ def dictLoop1 {σ} (np : σ → Str → Bool) : σ → List (DEntry σ) → List
   | f, e :: es =>
     if e.kNull (np f) || e.vNull (np f) then dictLoop1 np f es
     else
-      let (kt, f1) := e.kR f
-      let (vt, f2) := e.vR f1
-      let (rest, f3) := dictLoop1 np f2 es
-      ((kt, vt, e) :: rest, f3)
+      let r1 := e.kR f
+      let r2 := e.vR r1.2
+      let r3 := dictLoop1 np r2.2 es
+      ((r1.1, r2.1, e) :: r3.1, r3.2)
 
 /-- second loop of `Dict.render` over the sorted pairs -/
 def dictLoop2 {σ} (n : Nat) : Bool → σ → List (Str × Str × DEntry σ) → Str × σ
   | _, f, [] => ([], f)
-  | first, f, (_, _, e) :: es =>
-    let (kt, f1) := e.kR f
-    let (vt, f2) := e.vR f1
-    let (rest, f3) := dictLoop2 n false f2 es
-    ((if first && n > 1 then b!"\n" else []) ++ kt ++ b!":" ++ vt ++ (if n > 1 then b!",\n" else []) ++ rest, f3)
+  | first, f, t :: es =>
+    let r1 := t.2.2.kR f
+    let r2 := t.2.2.vR r1.2
+    let r3 := dictLoop2 n false r2.2 es
+    ((if first && n > 1 then b!"\n" else []) ++ r1.1 ++ b!":" ++ r2.1 ++ (if n > 1 then b!",\n" else []) ++ r3.1, r3.2)
 
 def dictKeyLe {σ} (a b : Str × Str × DEntry σ) : Bool := dictLe (a.1, a.2.1) (b.1, b.2.1)
 
 def renderDictWith {σ} (np : σ → Str → Bool) (f : σ) (es : List (DEntry σ)) : Str × σ :=
-  let (kept, f1) := dictLoop1 np f es
-  let sorted := kept.mergeSort dictKeyLe
-  dictLoop2 sorted.length true f1 sorted
+  let r1 := dictLoop1 np f es
+  let sorted := r1.1.mergeSort dictKeyLe
+  dictLoop2 sorted.length true r1.2 sorted
 
 namespace Code
 
